@@ -82,3 +82,12 @@ From VV Require Import Gen.GenRoute.
 Theorem C14_ring_size_test_regenerated : forall n mx, num_bad n mx = false <-> (n <> 0 /\ n <= mx /\ popcount n = 1).
 Proof. exact num_bad_spec. Qed.
 Print Assumptions C14_ring_size_test_regenerated.
+
+(* ---- the SET_FEATURES handler REGENERATED from handler.rs as a program over the model's primitives (Gen/GenCtl.v:
+   the subset test against the offer, the acknowledged features, enabling every ring when PROTOCOL_FEATURES is not among
+   them, the EVENT_IDX setting for every queue and for the backend, the bits handed to the backend) computes exactly the
+   model's handler the theorems above are about, for every state and value ---- *)
+From VV Require Import Gen.GenCtl Model.CtlOps Model.CtlRun Proofs.CtlProofs.
+Theorem C14_set_features_regenerated : forall s q e f v, run_handler_num ctl_set_features s q e f v = h_set_features s v.
+Proof. exact ctl_set_features_eq. Qed.
+Print Assumptions C14_set_features_regenerated.
